@@ -209,34 +209,34 @@ def check_pool(C, rec, label, insts, hists, classes_md):
                 C.viol(violation(PROP, sig("ne_inconsistent"), {"eq": E[i][j], "ne": ne}, case([i, j])))
     for i in range(n):
         if not E[i][i]:
-            C.viol(violation(PROP, sig("not_reflexive"), {"repr": repr(insts[i])[:200]}, case([i])))
+            C.viol(violation(PROP, sig("not_reflexive"), {"repr": safe_repr(insts[i])[:200]}, case([i])))
         for j in range(n):
             if E[i][j] != E[j][i]:
-                C.viol(violation(PROP, sig("not_symmetric"), {"a": repr(insts[i])[:150], "b": repr(insts[j])[:150], "a==b": E[i][j], "b==a": E[j][i]}, case([i, j])))
+                C.viol(violation(PROP, sig("not_symmetric"), {"a": safe_repr(insts[i])[:150], "b": safe_repr(insts[j])[:150], "a==b": E[i][j], "b==a": E[j][i]}, case([i, j])))
             same_cls = type(insts[i]) is type(insts[j])
             if same_cls:
                 exp = expected_equal(insts[i], insts[j], type(insts[i]).__spec_class__)
                 if E[i][j] != exp:
                     C.viol(violation(PROP, sig("eq_not_attribute_equality", expected=exp),
-                                     {"a": repr(insts[i])[:150], "b": repr(insts[j])[:150], "a==b": E[i][j]}, case([i, j])))
+                                     {"a": safe_repr(insts[i])[:150], "b": safe_repr(insts[j])[:150], "a==b": E[i][j]}, case([i, j])))
             elif E[i][j]:
                 # cross-class: equal => all compare-enabled attributes common to both are equal
                 md = type(insts[i]).__spec_class__
                 if not all((nm in vars(insts[i])) == (nm in vars(insts[j])) and
                            (nm not in vars(insts[i]) or values_equal(vars(insts[i])[nm], vars(insts[j])[nm]))
                            for nm, a in md.attrs.items() if a.compare):
-                    C.viol(violation(PROP, sig("cross_class_equal_but_attrs_differ"), {"a": repr(insts[i])[:150], "b": repr(insts[j])[:150]}, case([i, j])))
+                    C.viol(violation(PROP, sig("cross_class_equal_but_attrs_differ"), {"a": safe_repr(insts[i])[:150], "b": safe_repr(insts[j])[:150]}, case([i, j])))
             for k in range(n):
                 C.inc("transitions")
                 if E[i][j] and E[j][k] and not E[i][k]:
-                    C.viol(violation(PROP, sig("not_transitive"), {"a": repr(insts[i])[:100], "b": repr(insts[j])[:100], "c": repr(insts[k])[:100]}, case([i, j, k])))
+                    C.viol(violation(PROP, sig("not_transitive"), {"a": safe_repr(insts[i])[:100], "b": safe_repr(insts[j])[:100], "c": safe_repr(insts[k])[:100]}, case([i, j, k])))
     for i, x in enumerate(insts):
         C.inc("evaluations")
         md = type(x).__spec_class__
         try:
             c = copy.deepcopy(x)
             if not (c == x and x == c):
-                C.viol(violation(PROP, sig("deepcopy_not_equal"), {"x": repr(x)[:200], "copy": repr(c)[:200]}, case([i])))
+                C.viol(violation(PROP, sig("deepcopy_not_equal"), {"x": safe_repr(x)[:200], "copy": safe_repr(c)[:200]}, case([i])))
         except Exception as e:
             C.viol(violation(PROP, sig("deepcopy_raised", error=type(e).__name__), {"error": repr(e)[:200]}, case([i])))
         # reconstruction from own attribute values
@@ -252,9 +252,9 @@ def check_pool(C, rec, label, insts, hists, classes_md):
         try:
             y = type(x)(**kw)
             if noninit_default and not (y == x):
-                C.viol(violation(PROP, sig("reconstruction_not_equal"), {"x": repr(x)[:200], "rebuilt": repr(y)[:200]}, case([i])))
+                C.viol(violation(PROP, sig("reconstruction_not_equal"), {"x": safe_repr(x)[:200], "rebuilt": safe_repr(y)[:200]}, case([i])))
         except Exception as e:
-            C.viol(violation(PROP, sig("reconstruction_raised", error=type(e).__name__), {"error": repr(e)[:200], "x": repr(x)[:200]}, case([i])))
+            C.viol(violation(PROP, sig("reconstruction_raised", error=type(e).__name__), {"error": repr(e)[:200], "x": safe_repr(x)[:200]}, case([i])))
         # repr
         for kwargs in ({}, {"indent": False}, {"indent": True}):
             try:
@@ -268,6 +268,13 @@ def check_pool(C, rec, label, insts, hists, classes_md):
                 if got != want:
                     C.viol(violation(PROP, sig("repr_attribute_list"), {"repr": r[:300], "names": got, "expected": want}, case([i])))
     C.inc("traces_validated_against_impl", n)
+
+
+def safe_repr(x):
+    try:
+        return repr(x)
+    except Exception as e:  # (a raising repr is reported by check_pool; the evidence sample must not crash on it)
+        return f"<repr raised {type(e).__name__}>"
 
 
 def pool_worker(task):
@@ -298,7 +305,7 @@ def pool_worker(task):
     for h in hists:
         C.nontrivial(repr(h))
     check_pool(C, rec, label, insts, hists, None)
-    C.sample({"part": "pool", "class": rec["name"], "pool_size": len(insts), "reprs": [repr(x)[:80] for x in insts[:4]]})
+    C.sample({"part": "pool", "class": rec["name"], "pool_size": len(insts), "reprs": [safe_repr(x)[:80] for x in insts[:4]]})
     return C.rec
 
 
@@ -378,7 +385,7 @@ def single_diff_worker(task):
             same = False
         if not same:
             C.viol(violation(PROP, {"part": "single_difference", "kind": "deepcopy_not_equal", "variant": variant, "has_selfbound": "sb" in order},
-                             {"x": repr(x)[:200], "copy": repr(cx)[:200] if "cx" in dir() else None},
+                             {"x": safe_repr(x)[:200], "copy": safe_repr(cx)[:200] if "cx" in dir() else None},
                              {"part": "single_difference", "order": list(order), "attr": order[0], "alt": repr(FIELDS[order[0]][3][0]), "variant": variant}))
         rn = repr_names(x.__repr__(indent=False))
         if rn != [n for n in order if n not in hidden]:
